@@ -391,6 +391,7 @@ Definition guard_dropped (k : nat) (need : ophase) (o : ostate) : ostate :=
   end.
 
 Definition ostep {C : Type} (lim : option nat) (o : ostate) (p : op C) (l : list obs) : ostate :=
+  if negb (h_stop (o_v o)) then o else      (* outside stops_after_error: nothing is checked *)
   let '(body, g) := split_gauges l in
   let '(o1, settled, blocked, ended) :=
     match p with
